@@ -37,7 +37,9 @@ Example time_honest_ignores_runnable_slices :
 Proof. split; reflexivity. Qed.
 
 Definition park_honestb (d : did) (mail' : list msg) : bool :=
-  (if d_park d then match d_sel d with Some s => forallb (fun c => c =? length mail') (sl_cursors s) | None => true end else true) &&
+  (if d_park d then match d_sel d with
+                    | Some s => match sl_start s with Some _ => forallb (fun c => c =? length mail') (sl_cursors s) | None => true end
+                    | None => true end else true) &&
   match d_act d with
   | Some (AAwait _) => match d_sel d with Some s => match sl_start s with None => true | Some _ => false end | None => true end
   | _ => true
@@ -45,9 +47,19 @@ Definition park_honestb (d : did) (mail' : list msg) : bool :=
 Lemma park_honestb_sound d mail' : park_honestb d mail' = true -> park_honest d mail'.
 Proof.
   unfold park_honestb, park_honest. intros H. apply andb_true_iff in H. destruct H as (H1&H2). split.
-  - intros Hp s Hs. rewrite Hp, Hs in H1. apply Forall_forall. intros c Hc. rewrite forallb_forall in H1. apply Nat.eqb_eq. apply H1, Hc.
+  - intros Hp s Hs Hn. rewrite Hp, Hs in H1. destruct (sl_start s); [|exfalso; apply Hn; reflexivity].
+    apply Forall_forall. intros c Hc. rewrite forallb_forall in H1. apply Nat.eqb_eq. apply H1, Hc.
   - intros ts Ha s Hs. rewrite Ha, Hs in H2. destruct (sl_start s); [discriminate|reflexivity].
 Qed.
+
+(* a select woken before all its awaited targets are reported parks again without scanning (repair of
+   F72): start unset, cursor not at the end of the mailbox — not a violation; with the start set it is *)
+Example park_honest_ignores_unstarted_selects :
+  park_honestb {| d_taken := []; d_sel := Some {| sl_targets := [1; 2]; sl_cursors := [0]; sl_timeouts := []; sl_start := None |};
+                  d_forget := []; d_act := None; d_park := true; d_fin := None; d_heapy := false |} [mkMsg 3 0 0] = true /\
+  park_honestb {| d_taken := []; d_sel := Some {| sl_targets := [1; 2]; sl_cursors := [0]; sl_timeouts := []; sl_start := Some 0 |};
+                  d_forget := []; d_act := None; d_park := true; d_fin := None; d_heapy := false |} [mkMsg 3 0 0] = false.
+Proof. split; reflexivity. Qed.
 
 Definition park_honest_stepb (s : sys) (a : sched_action) : bool :=
   match a with
